@@ -138,6 +138,16 @@ def make_invocation(rng, world, with_faults):
         op["_after"] = {"op": "cli", "argv": ["-p", e2["rel"], "-b" if binary else "-s", op["_lib"]["input"]] + (["--macros"] + list(e2["macros"]) if e2.get("macros") else [])}
         if op.get("stdin_pipe"):
             op["_after"]["stdin_pipe"] = op["stdin_pipe"]
+    er = rng.random()
+    if er < 0.05:
+        # no objdump anywhere on PATH (irrelevant for -s runs, fatal for -b runs - for the library and the command alike)
+        op["env"] = {"PATH": "{W}/no-such-bin-dir"}
+        op["_faultclass"] = op.get("_faultclass") or "env:path_without_objdump"
+    elif er < 0.10:
+        # variables a tool of this kind might look at (none is read today): values that would change the result if honoured
+        mf = rng.choice(macro_files) if macro_files else "x.yaml"
+        op["env"] = {"JASM_MACROS": mf, "JASM_OPTS": "--all-matches --return_only_address", "JASM_ARGS": "--all-matches", "JASM_CONFIG": mf,
+                     "JASM_DEBUG": "1", "JASM_STYLE": "intel", "OBJDUMP": "/usr/bin/llvm-objdump", "JASM_SECTIONS": ".nope", "NO_COLOR": "1", "COLUMNS": "20"}
     if rng.random() < 0.08:
         op["warnings_error"] = True  # python -W error: a warning anywhere on the way becomes an exception
     if usage is None and rng.random() < 0.15:
@@ -177,6 +187,8 @@ def lib_ops(op):
         base["stdin_pipe"] = op["stdin_pipe"]
     if op.get("warnings_error"):
         base["warnings_error"] = True
+    if op.get("env"):
+        base["env"] = op["env"]
     return {**base, "ret": "bool"}, {**base, "ret": "list"}
 
 
@@ -273,6 +285,11 @@ def calibrate(files, op, got, runner):
     env["PYTHONPATH"] = os.path.join(ex.REPO, "src")
     env["PYTHONDONTWRITEBYTECODE"] = "1"
     env["PYTHONHASHSEED"] = "0"
+    for k_, v_ in (op.get("env") or {}).items():
+        if v_ is None:
+            env.pop(k_, None)
+        else:
+            env[k_] = str(v_).replace("{W}", root)
     if op.get("warnings_error"):
         env["PYTHONWARNINGS"] = "error"
     else:
